@@ -27,7 +27,7 @@ CLAIMED.update({
    note='Trusted: Coq kernel; hand-written model of token-manager tied by the correspondence; gen_tables.py; harness.'),
  'C10': dict(section='8/C10', technique='Coq proof (service-only, exact custody/supply effect of give/take, mint/burn gates, role transfer/proposal algebra, role frame) + differential correspondence in the Rust VM',
    text='Theorems c10_give/take_service_only, c10_give_lock, c10_take_lock, c10_transfer_exact, c10_give_mint, c10_take_mint, c10_mint/burn_requires, c10_transfer_role, c10_accept_role (usable once), c10_*_auth, c10_roles_frame, c10_no_redeploy; correspondence over all five manager types and every caller class.',
-   note='Trusted: as C09; per-step custody statements (the history-level sum is their direct fold); ESDT role/frozen-account rules of the protocol are outside the model.'),
+   note='Trusted: as C09; per-step custody statements (the history-level sum is their direct fold); ESDT role/frozen-account rules of the protocol are outside the model. History level (Proofs/TMCustody.v): c10_custody_step and c10_custody_history (holdings of a lock/unlock manager = initial + taken - given over every operation sequence).'),
 })
 CLAIMED.update({
  'C15': dict(section='8/C15', technique='Coq proof (receipt characterisation, exact events, collector-only outflow for every operation, collectFees relation, collector replacement) + differential correspondence of the real gas service in the Rust VM',
@@ -49,23 +49,23 @@ ITS_NOTE = 'Trusted: Coq kernel; hand-written model of the ITS world (gateway, g
 ITS_TECH = 'Coq proof over the ITS world model + differential correspondence of the real contracts in the Rust VM with harness-scheduled asynchronous steps + trace monitors on the implementation observations'
 CLAIMED.update({
  'C04': dict(section='8/C04', technique=ITS_TECH, note=ITS_NOTE,
-   text='Theorems c04_release_requires (live approval for exactly this message addressed to the service, consumed by the step; exactly the payload amount to the payload recipient through the registered manager), c04_trusted_source, c04_give, c04_once (an executed message releases nothing again).'),
+   text='Theorems c04_release_requires (live approval for exactly this message addressed to the service, consumed by the step; exactly the payload amount to the payload recipient through the registered manager), c04_trusted_source, c04_give, c04_once (an executed message releases nothing again). World level (Proofs/ItsGw.v): c04_gateway_forward (all 25 operation kinds move every gateway message only forward), c04_executed_forever, c04_released_once_forever.'),
  'C05': dict(section='8/C05', technique=ITS_TECH, note=ITS_NOTE,
    text='Theorems c05_split (payment shapes), c05_effect (take by the manager of the token id, one gateway message with abi.encode(0, token id, sender, destination, amount, data) to the routed destination), c05_take, c05_message (exact contract-call and gas-paid events, gas moved to the gas service, refund address = sender), c05_payload_abi (C06).'),
  'C08': dict(section='8/C08', technique=ITS_TECH, note=ITS_NOTE + ' Known finding F-C08-1 (failure callback rejected by the flow limit) is recorded in known_findings.json and exhibited by c08_refuted_flow_limit.',
-   text='Theorems c08_start (approval checked not consumed, lock taken, one promise), c08_lock_excludes, c08_callback (success: message executed, nothing else moves; failure: gateway untouched, tokens taken back through takeToken, lock cleared), c08_no_double; the recorded finding is reported as KNOWN-FINDING, any other stranding or double delivery as a violation.'),
+   text='Theorems c08_start (approval checked not consumed, lock taken, one promise), c08_lock_excludes, c08_callback (success: message executed, nothing else moves; failure: gateway untouched, tokens taken back through takeToken, lock cleared), c08_no_double; the recorded finding is reported as KNOWN-FINDING, any other stranding or double delivery as a violation. World level (Proofs/ItsLocks.v): the invariant LockInv (every delivery in flight holds its lock; at most one delivery in flight per message) is inductive over all 25 operation kinds: c08_inv_init, c08_inv_step, c08_inv_reachable, c08_in_flight_locked.'),
  'C13': dict(section='8/C13', technique=ITS_TECH, note=ITS_NOTE,
-   text='Theorems c13_route_out (+ three refusals), c13_route_in, c13_route_message, c13_execute_requires_trusted, c13_trusted_owner_only; hub names and message types regenerated and pinned.'),
+   text='Theorems c13_route_out (+ three refusals), c13_route_in, c13_route_message, c13_execute_requires_trusted, c13_trusted_owner_only; hub names and message types regenerated and pinned. World level (Proofs/ItsConfig.v): c13_trusted_table_owner_only (no operation other than the owner's set/remove changes the trusted-address table).'),
  'C14': dict(section='8/C14', technique=ITS_TECH, note=ITS_NOTE,
-   text='Theorems c14_*_id (published derivations), c14_preimage_inj / c14_kind_prefix, c14_create, c14_binding_forever_step and c14_binding_forever (write-once binding over every operation, asynchronous step and history, by case analysis over all 23 operations + induction), c14_local_deployer, c14_custom_not_native; prefix hashes distinct for keccak by computation.'),
+   text='Theorems c14_*_id (published derivations), c14_preimage_inj / c14_kind_prefix, c14_create, c14_binding_forever_step and c14_binding_forever (write-once binding over every operation, asynchronous step and history, by case analysis over all 25 operations + induction), c14_local_deployer, c14_custom_not_native; prefix hashes distinct for keccak by computation.'),
  'C17': dict(section='8/C17', technique=ITS_TECH, note=ITS_NOTE + ' Known findings F-C17-1..5 (callback of the lookup fails in a later configuration: value stays in the service) are recorded and exhibited by the c17_refuted_* Examples.',
    text='Theorems c17_metadata_callback and c17_remote_callback (whenever the callback completes the whole attached value is refunded or forwarded to the gas service with one gateway message), c17_sync_forward; the recorded classes are reported as KNOWN-FINDING, any other value left in the service as a violation (custody equation monitor).'),
  'C18': dict(section='8/C18', technique=ITS_TECH, note=ITS_NOTE + ' Genuine defects F-C18-1 and F-C18-2 repaired by fix: commits.',
-   text='Theorems c18_inbound_two_step, c18_executed_not_approved, c18_token_never_replaced, c18_no_reissue, c18_zero_supply_no_minter, c18_service_minter_refused, c18_mintership_leaves_service, c18_handover_keeps_minter_bit, c18_no_minter_no_mint.'),
+   text='Theorems c18_inbound_two_step, c18_executed_not_approved, c18_token_never_replaced, c18_no_reissue, c18_zero_supply_no_minter, c18_service_minter_refused, c18_mintership_leaves_service, c18_handover_keeps_minter_bit, c18_no_minter_no_mint. Every operation / history (Proofs/TMToken.v, Proofs/ItsTokens.v): c18_endpoints_keep_token, c18_token_forever_step, c18_token_forever (the recorded token survives all 25 operation kinds; hypothesis: deployment addresses are fresh).'),
  'C19': dict(section='8/C19', technique=ITS_TECH, note=ITS_NOTE,
-   text='Theorems c19_approve, c19_minter_check, c19_revoke, c19_deploy (approval of exactly that tuple and hash by the current minter, consumed; no destination minter without a local minter; service never minter), c19_single_use, c19_key_preimage_inj.'),
+   text='Theorems c19_approve, c19_minter_check, c19_revoke, c19_deploy (approval of exactly that tuple and hash by the current minter, consumed; no destination minter without a local minter; service never minter), c19_single_use, c19_key_preimage_inj. World level (Proofs/ItsApprovals.v): c19_approvals_frame and c19_approval_origin (a non-empty approval is only ever written by the approve endpoint called by a current minter, under exactly its key and hash).'),
  'C20': dict(section='8/C20', technique=ITS_TECH, note=ITS_NOTE + ' Genuine defects F-C20-1 and F-C20-2 repaired by a fix: commit.',
-   text='Theorems c20_paused_frame (every gated endpoint leaves the world unchanged while paused), c20_pause_owner_only, c20_unpause_restores, c20_trusted_owner_only, c20_remove_trusted_owner_only, c20_flow_limits_operator_only; the endpoint table and the list of pause-gated functions are regenerated from the sources and pinned.'),
+   text='Theorems c20_paused_frame (every gated endpoint leaves the world unchanged while paused), c20_pause_owner_only, c20_unpause_restores, c20_trusted_owner_only, c20_remove_trusted_owner_only, c20_flow_limits_operator_only; the endpoint table and the list of pause-gated functions are regenerated from the sources and pinned. World level (Proofs/ItsRoles.v, Proofs/ItsConfig.v): c20_roles_frame, c20_operator_gain (the operator role is gained only by transfer from / accepted proposal of a holder), c20_config_frame, c20_pause_flag_owner_only.'),
 })
 NOT_YET = {}
 def main():
